@@ -1263,6 +1263,40 @@ func (c *Component) installInMemoryState(sess *SessionState) {
 	if sess.ipv6cpOpen {
 		c.placeSessionInRABucket(sess)
 	}
+
+	// Re-stake the session's addresses in the allocator. startNCP reserves
+	// them on fresh bring-up, but a restored session never runs startNCP,
+	// so without this the registry boots with no knowledge of restored
+	// addresses and the first PADR after StateReady can be handed an IP
+	// that a restored session is using. Mirrors IPoE installInMemoryState.
+	// Conflicts are logged but not fatal: opdb is the source of truth for
+	// the restored session.
+	if registry := c.registry; registry != nil {
+		if sess.IPv4Address != nil {
+			if err := registry.ReserveIP(sess.IPv4Address, sess.SessionID); err != nil {
+				c.logger.Warn("IPv4 reservation conflict during restore",
+					"session_id", sess.SessionID,
+					"address", sess.IPv4Address.String(),
+					"error", err)
+			}
+		}
+		if sess.IPv6Address != nil {
+			if err := registry.ReserveIANA(sess.IPv6Address, sess.SessionID); err != nil {
+				c.logger.Warn("IPv6 IANA reservation conflict during restore",
+					"session_id", sess.SessionID,
+					"address", sess.IPv6Address.String(),
+					"error", err)
+			}
+		}
+		if sess.IPv6Prefix != nil {
+			if err := registry.ReservePD(sess.IPv6Prefix, sess.SessionID); err != nil {
+				c.logger.Warn("PD reservation conflict during restore",
+					"session_id", sess.SessionID,
+					"prefix", sess.IPv6Prefix.String(),
+					"error", err)
+			}
+		}
+	}
 }
 
 // detectRestoreCause inspects VPP state to identify which recovery
